@@ -231,39 +231,7 @@ def run(ck):
             ck.finding('C12.R4', key, 'result', 'calculate_crc32: the returned value is not the result of the fourth crc32 call unmodified (no final xor, no reflection)')
         if okc and chain_ok and last_ok:
             ck.discharged += 6
-    # ---- R5: what the encapsulator passes
-    n5 = 0
-    for wname in ('encap', 'encap_ext'):
-        w_ = analyse_writer(ck, ENC + wname, extra=c09.ENCCFG)
-        env = writer_env(ck, w_, wname)
-        for r in w_.events('call'):
-            if r.data[2] != 'crc::CrcCalculator::calculate_crc32' or r.site[0] != ENC + wname:
-                continue
-            n5 += 1
-            args, W = r.data[3], r.data[5]
-            pdu, pt, tl, lab = args[1], args[2], args[3], args[4]
-            part_lt = None
-            lt_ = ghost(W, 'hdr_lt')
-            if lt_ is not None and lt_[0] == 'enum' and len(lt_[1]) == 1:
-                part_lt = f.variant_name('label::LabelType', lt_[1][0][0])
-            ck.obligations += 3
-            if pdu[0] == 'slice' and pdu[1].root == env['pdu_root'] and W.store.entails_eq(pdu[2], Lin.c(0)) and W.store.entails_eq(pdu[3], env['P']):
-                ck.discharged += 1
-            else:
-                ck.finding('C12.R5', ENC + wname, 'crc-pdu', f"{wname}: the CRC is not computed over the whole PDU", r.site)
-            if pt == ('int', env['ptype']):
-                ck.discharged += 1
-            else:
-                ck.finding('C12.R5', ENC + wname, 'crc-ptype', f"{wname}: the CRC protocol type argument is not the protocol type passed", r.site)
-            if part_lt is None:
-                ck.finding('C12.R5', ENC + wname, 'crc-label-type', f"{wname}: label type unknown at the CRC call", r.site)
-            else:
-                L = LABEL_LEN[part_lt]
-                if tl[0] == 'int' and not has_trunc(tl[1]) and W.store.entails_eq(tl[1], env['P'] + 2 + L) and lab[0] == 'slice' and W.store.entails_eq(lab[3], Lin.c(L)):
-                    ck.discharged += 1
-                else:
-                    ck.finding('C12.R5', ENC + wname, f"crc-total-length:{part_lt}", f"{wname} ({part_lt} label): CRC total length / label arguments are not (PDU + 2 + {L}, {L} label bytes)", r.site)
-    ck.rule('C12.R5 calculate_crc32 call sites of the encapsulator', n5, 8)
+    crc_call_sites(ck, 'C12.R5')
     ck.assumptions += ['Iterator::fold over slice::Iter is a left fold in slice order (std documentation)',
                        'the decapsulator side of the argument agreement (decap_end) is rule C03.R3; the trailer position is rules C06.R4 / C03.R3']
     return ck.finish(
@@ -301,3 +269,41 @@ def _reborrow_of_param(b, o, param):
                 p = st['rv']['place']
                 return p['local'] == param and [e['p'] for e in p['proj']] == ['deref']
     return False
+
+
+def crc_call_sites(ck, P):
+    f = ck.facts
+    # ---- R5: what the encapsulator passes
+    n5 = 0
+    for wname in ('encap', 'encap_ext'):
+        w_ = analyse_writer(ck, ENC + wname, extra=c09.ENCCFG)
+        env = writer_env(ck, w_, wname)
+        for r in w_.events('call'):
+            if r.data[2] != 'crc::CrcCalculator::calculate_crc32' or r.site[0] != ENC + wname:
+                continue
+            n5 += 1
+            args, W = r.data[3], r.data[5]
+            pdu, pt, tl, lab = args[1], args[2], args[3], args[4]
+            part_lt = None
+            lt_ = ghost(W, 'hdr_lt')
+            if lt_ is not None and lt_[0] == 'enum' and len(lt_[1]) == 1:
+                part_lt = f.variant_name('label::LabelType', lt_[1][0][0])
+            ck.obligations += 3
+            if pdu[0] == 'slice' and pdu[1].root == env['pdu_root'] and W.store.entails_eq(pdu[2], Lin.c(0)) and W.store.entails_eq(pdu[3], env['P']):
+                ck.discharged += 1
+            else:
+                ck.finding(P, ENC + wname, 'crc-pdu', f"{wname}: the CRC is not computed over the whole PDU", r.site)
+            if pt == ('int', env['ptype']):
+                ck.discharged += 1
+            else:
+                ck.finding(P, ENC + wname, 'crc-ptype', f"{wname}: the CRC protocol type argument is not the protocol type passed", r.site)
+            if part_lt is None:
+                ck.finding(P, ENC + wname, 'crc-label-type', f"{wname}: label type unknown at the CRC call", r.site)
+            else:
+                L = LABEL_LEN[part_lt]
+                if tl[0] == 'int' and not has_trunc(tl[1]) and W.store.entails_eq(tl[1], env['P'] + 2 + L) and lab[0] == 'slice' and W.store.entails_eq(lab[3], Lin.c(L)):
+                    ck.discharged += 1
+                else:
+                    ck.finding(P, ENC + wname, f"crc-total-length:{part_lt}", f"{wname} ({part_lt} label): CRC total length / label arguments are not (PDU + 2 + {L}, {L} label bytes)", r.site)
+    ck.rule('C12.R5 calculate_crc32 call sites of the encapsulator', n5, 8)
+
